@@ -11,7 +11,7 @@ def run (_tag : String) (kv : KV) : String :=
   let b := kv.getD "beh" "fast"
   let beh : Beh := if b = "fast" ∨ b = "fast500" ∨ b = "fastlost" then .exitsFast else if b = "slow" then .exitsSlow
     else if b = "ignores" then .ignores else if b = "frozen" then .frozen else .deadAlready
-  let hasAddr := b != "neverstarted"
+  let hasAddr := b != "neverstarted" && b != "neverstarted2"
   let o := kill P proto beh (b = "fastlost") hasAddr true
   -- repeated / concurrent Kills: the later ones find a closed client (or no runner): they can only add a force kill
   let pat := kv.getD "pattern" "single"
